@@ -481,7 +481,7 @@ def run_layer2(ctx, counts=None):
         ctx.violation("corr", "harness-build-broken", "package-main driver no longer builds against /repo: " + out[-1500:],
                       {"correspondence": "build of harness/overlay against /repo/server"})
         return {}
-    total = (counts or {}).get(ctx.tier, 280 if quick else 5000)
+    total = (counts or {}).get(ctx.tier, 280 if quick else 3000)
     scns = []
     if ctx.replay:
         rp = json.load(open(ctx.replay))
@@ -614,7 +614,8 @@ def run_layer2(ctx, counts=None):
     nt = set()
     kinds, codes, faults_seen = {}, {}, {}
     nops = 0
-    delstat = {"accepted_soft": 0, "accepted_hard": 0, "degraded_to_soft": 0, "denied_403": 0, "malformed_400": 0, "other": 0}
+    delstat = {"accepted_soft": 0, "accepted_hard": 0, "degraded_to_soft": 0, "denied_403": 0, "malformed_400": 0,
+               "not_attached_409": 0, "other": 0}
     for sc in scns:
         sig = []
         for k, o in enumerate(sc.ops):
@@ -644,6 +645,8 @@ def run_layer2(ctx, counts=None):
                     delstat["denied_403"] += 1
                 elif c == "400":
                     delstat["malformed_400"] += 1
+                elif c == "409":
+                    delstat["not_attached_409"] += 1
                 else:
                     delstat["other"] += 1
             sig.append((o, tuple(impl[sc.id][k]["frames"])))
